@@ -473,6 +473,11 @@ class Machine:
             return I(int(m.group(1)), w)
         if c == 'true': return True
         if c == 'false': return False
+        m = re.match(r'^(u|i)(8|16|32|64|128|size)::(MIN|MAX)$', c)
+        if m:
+            w = 64 if m.group(2) == 'size' else int(m.group(2))
+            if m.group(1) == 'u': return I(0 if m.group(3) == 'MIN' else (1 << w) - 1, w)
+            return I((1 << (w - 1)) if m.group(3) == 'MIN' else (1 << (w - 1)) - 1, w)
         if c == '()': return UNIT
         if c.startswith('"'): return Opaque('str:' + c)
         if c.startswith('ZeroSized'):
@@ -889,6 +894,7 @@ class Machine:
         if k == 'ident': return s.deliver(st, th, rv)
         if k == 'wrap': return s.deliver(st, th, mk_enum(data[0], data[1], [rv]))
         if k == 'const': return s.deliver(st, th, data[0])
+        if k == 'panic': return s.start_panic(st, th, data[0], origin=data[1])
         if k == 'filter':
             outs = []
             for st2, keep in s.fork_on(st, rv):
